@@ -84,9 +84,13 @@ def long_part(run):
         pos = {}
         inp = os.path.join(d, "l%d.%s" % (k, "bedGraph" if kind == "bw" else "bed"))
         with open(inp, "w") as f:
-            for c, n in b["runs"]:
+            for ri, (c, n) in enumerate(b["runs"], 1):
                 p = pos.get(c, 0)
                 for i in range(n):
+                    if b["bad"] and ri == b["at"] and i == n // 2:
+                        # ONE malformed line in the middle of this run (nothing else wrong with it)
+                        f.write({1: "%s\n" % chrom_name(c), 2: "%s\tx%d\t%d\t1\n" % (chrom_name(c), p, p + 1), 3: "%s\t%d\n" % (chrom_name(c), p)}[b["bad"]])
+                        continue
                     f.write("%s\t%d\t%d\t%s\n" % (chrom_name(c), p, p + 1, "1.5" if kind == "bw" else "n%d" % i))
                     p += 1 + (i % 3 == 0)
                 pos[c] = p
@@ -102,7 +106,7 @@ def long_part(run):
             rc, _, err = cf.run_tool(tdir, "own", "bedgraphtobigwig" if kind == "bw" else "bedtobigbed", [inp, sizes, big] + m, timeout=120)
             made = os.path.exists(big) and os.path.getsize(big) > 0
             res = "hang" if rc == 124 else ("err" if rc != 0 else ("ok" if made else "silent"))
-            out.append({"long": 1, "kind": kind, "runs": b["runs"], "must": b["must"], "mode": " ".join(m), "obs": {"result": res, "rc": rc, "err": err[-160:]}})
+            out.append({"long": 1, "kind": kind, "runs": b["runs"], "bad": b["bad"], "at": b["at"], "must": b["must"], "mode": " ".join(m), "obs": {"result": res, "rc": rc, "err": err[-160:]}})
             try:
                 os.remove(big)
             except OSError:
@@ -113,7 +117,7 @@ def long_part(run):
     lines = []
     for o in obs:
         lines.append(json.dumps(o, separators=(",", ":")))
-        run.count_case(json.dumps([o["kind"], o["runs"], o["mode"]]), True)
+        run.count_case(json.dumps([o["kind"], o["runs"], o["bad"], o["at"], o["mode"]]), True)
     bad = validate_obs("Obs_Refusal", "Obs.cfg", lines, run.wd, "obs_long", shards=2)
     run.cov["traces_validated_against_impl"] += len(obs)
     run.cov["long_stream_runs"] = len(obs)
@@ -124,7 +128,7 @@ def long_part(run):
     run.cov["long_stream_outcomes"] = res
     for i, tag in bad:
         o = obs[i]
-        run.violation("C13 %s (long stream through the real converter): kind=%s runs=%s mode=%s -> %s" % (tag, o["kind"], json.dumps(o["runs"]), o["mode"], json.dumps(o["obs"])),
+        run.violation("C13 %s (long stream through the real converter): kind=%s runs=%s malformed=%s@run%s mode=%s -> %s" % (tag, o["kind"], json.dumps(o["runs"]), o["bad"], o["at"], o["mode"], json.dumps(o["obs"])),
                       {"kind": "refuse-long", "tag": tag, "case": {k: o[k] for k in o if k != "obs"}, "obs": o["obs"]})
 
 
